@@ -421,12 +421,7 @@ func (s *state) grid() {
 		})
 		s.r.Eval(1)
 		detail := map[string]any{"case": x, "chunks_head": head(x.Chunks, 12), "forward": fwd, "backward": back}
-		if !br.OK() {
-			if br.Deadlock {
-				s.r.Violation("grid:reader-blocked-forever/"+x.Proto, id, "transfer never completed: bytes were lost (all goroutines blocked)", map[string]any{"case": x, "dump": br.Dump})
-			} else {
-				s.r.Violation("grid:panic/"+x.Proto, id, fmt.Sprint(br.Panic), map[string]any{"case": x, "stack": br.Dump})
-			}
+		if s.r.BubbleFailed(br, "grid/"+x.Proto, id, "transfer never completed: bytes were lost (all goroutines blocked)", map[string]any{"case": x}) {
 			return
 		}
 		if setupErr != nil {
@@ -636,12 +631,7 @@ func (s *state) mux() {
 			rb.Close()
 		})
 		s.r.Eval(1)
-		if !br.OK() {
-			if br.Deadlock {
-				s.r.Violation("mux:blocked-forever/"+stack, id, "stream transfer never completed (all goroutines blocked): bytes or a half-close were lost", map[string]any{"stack": stack, "specs": specs, "dump": br.Dump})
-			} else {
-				s.r.Violation("mux:panic/"+stack, id, fmt.Sprint(br.Panic), map[string]any{"stack": stack, "specs": specs, "stack_trace": br.Dump})
-			}
+		if s.r.BubbleFailed(br, "mux/"+stack, id, "stream transfer never completed (all goroutines blocked): bytes or a half-close were lost", map[string]any{"stack": stack, "specs": specs}) {
 			return
 		}
 		if setupErr != nil {
@@ -820,12 +810,7 @@ func (s *state) tamper() {
 			rr, applied, _, _, br, err := runOne(id, e)
 			s.r.Eval(1)
 			detail := map[string]any{"proto": proto, "edit": e, "reader": rr, "data_frames": frames[hs:]}
-			if !br.OK() {
-				if br.Deadlock {
-					s.r.Violation("tamper:reader-blocked-forever/"+proto, id, "reader hung after tampering", map[string]any{"edit": e, "dump": br.Dump})
-				} else {
-					s.r.Violation("tamper:panic/"+proto, id, fmt.Sprint(br.Panic), map[string]any{"edit": e, "stack": br.Dump})
-				}
+			if s.r.BubbleFailed(br, "tamper/"+proto, id, "reader hung after tampering", map[string]any{"edit": e}) {
 				return
 			}
 			if err != nil {
